@@ -339,7 +339,8 @@ class IPPO(MultiAgentRLAlgorithm):
         """
         # Get dict of form {"agent_id" : [1, 0, 0, 0]...} etc
         action_masks = {homo_id: [] for homo_id in self.shared_agent_ids}
-        for agent_id, info in infos.items():
+        for agent_id in self.agent_ids:
+            info = infos.get(agent_id)
             if isinstance(info, dict):
                 homo_id = self.get_homo_id(agent_id)
                 action_masks[homo_id].append(
@@ -373,11 +374,16 @@ class IPPO(MultiAgentRLAlgorithm):
         :rtype: torch.Tensor[float] or dict[str, torch.Tensor[float]] or Tuple[torch.Tensor[float], ...]
         """
         preprocessed = {homo_id: [] for homo_id in self.shared_agent_ids}
-        for agent_id, obs in observation.items():
+        # Stack the agents of a group in the order their outputs are handed back
+        # (self.agent_ids), whatever the order of the observation dict
+        for agent_id in self.agent_ids:
+            if agent_id not in observation:
+                continue
+
             homo_id = self.get_homo_id(agent_id)
             preprocessed[homo_id].append(
                 preprocess_observation(
-                    observation=obs,
+                    observation=observation[agent_id],
                     observation_space=self.observation_space.get(agent_id),
                     device=self.device,
                     normalize_images=self.normalize_images,
